@@ -23,8 +23,7 @@ mutual
 /-- `Conforms reg ty v`: the Python value `v` is a legal resolver argument for a position of type `ty`.
     * non-null ⇒ not `None`;
     * list ⇒ a list whose items conform;
-    * `Int` ⇒ an integer of the closed signed 32-bit interval (Python: `bool` is a subclass of `int`,
-      `True`/`False` are the integers 1/0);
+    * `Int` ⇒ an integer of the closed signed 32-bit interval (never a Python `bool`);
     * `Float` ⇒ a float; `String`/`ID` ⇒ a str; `Boolean` ⇒ a bool; custom scalar ⇒ a value its own parser accepted (`CustomOK`);
     * enum ⇒ the INTERNAL value of one of its names;
     * input object ⇒ a dict, in field order keyed by the PYTHON names, every present field conforming,
@@ -34,7 +33,6 @@ inductive Conforms (reg : Reg) : Ty → PV → Prop
   | nonNull {t : Ty} {pv : PV} : pv.isNone = false → Conforms reg t pv → Conforms reg (.nonNull t) pv
   | list {t : Ty} {l : List PV} : (∀ x, x ∈ l → Conforms reg t x) → Conforms reg (.list t) (.list l)
   | int {n : String} {k : Int} : reg.get? n = some .int → InRange32 k → Conforms reg (.named n) (.int k)
-  | intBool {n : String} {b : Bool} : reg.get? n = some .int → Conforms reg (.named n) (.bool b)
   | float {n : String} {f : Flt} : reg.get? n = some .float → Conforms reg (.named n) (.float f)
   | string {n : String} {s : String} : reg.get? n = some .string → Conforms reg (.named n) (.str s)
   | boolean {n : String} {b : Bool} : reg.get? n = some .boolean → Conforms reg (.named n) (.bool b)
